@@ -230,4 +230,20 @@ PROPS = {
         "assumptions": ["clause 3 not decided", "BaseProject.__allocate is syntactically not called on an absence step (it is under `if working`; seen by symbolic execution of the real body)"],
         "explanation": "absence arm of the step body",
     },
+
+    "C18": {
+        "inv": ["BaseTask.remove_absence_time_list", "BaseTask.insert_absence_time_list", "BaseComponent.remove_absence_time_list", "BaseComponent.insert_absence_time_list", "BaseWorker.remove_absence_time_list", "BaseWorker.insert_absence_time_list", "BaseFacility.remove_absence_time_list", "BaseFacility.insert_absence_time_list", "BaseTeam.remove_absence_time_list", "BaseTeam.insert_absence_time_list", "BaseWorkplace.remove_absence_time_list", "BaseWorkplace.insert_absence_time_list", "BaseOrganization.remove_absence_time_list", "BaseOrganization.insert_absence_time_list", "BaseProduct.remove_absence_time_list", "BaseProduct.insert_absence_time_list", "BaseWorkflow.remove_absence_time_list", "BaseWorkflow.insert_absence_time_list", "BaseProject.remove_absence_time_list", "BaseProject.insert_absence_time_list"],
+        "static": COMMON_STATIC,
+        "level_text": "remove_absence_time_list and insert_absence_time_list of all ten classes are verified, for every list of non-negative "
+                      "step indices (step 0, duplicates, steps beyond the end) and every log length: no exception (argument counts, pop "
+                      "indices), every log of every object ends at ONE common new length (a ghost fold over the sorted step list that is "
+                      "the same function for all logs), sub-project tasks included, and project.time equals that length.",
+        "level_note": "Lengths and safety are proved; the CONTENT of inserted entries (zero cost, copied allocation, state rule) and the "
+                      "inverse property remove(insert(s)) = s are not yet under contract. Preconditions: logs aligned before the edit, "
+                      "project.time == number of steps (unit_time 1), step indices >= 0.",
+        "design_ref": "DESIGN.md section 6 C18",
+        "assumptions": ["content of inserted/removed entries and the inverse property: not decided",
+                        "in-place extend of a possibly shared default list (D4): see C09"],
+        "explanation": "absence step editing keeps all logs aligned",
+    },
 }
